@@ -252,6 +252,7 @@ type FuncResult struct {
 	Script      []string
 	Assumed     []string
 	Abstraction []string
+	Stale       []string // anchors of the contract that matched no instruction
 	Err         error
 }
 
@@ -362,7 +363,7 @@ func verifyFunc(L *Loaded, fc *FuncContract, fn *ssa.Function) (res *FuncResult)
 		if g.Callee == "return" || g.Ordinal == -1 || ex.ghostUsed[g] {
 			continue
 		}
-		panic(engineErr("stale-contract", "%s: anchor `at %s %d of %s` matches no instruction", g.Clause.where(), g.Anchor, g.Ordinal, g.Callee))
+		res.Stale = append(res.Stale, fmt.Sprintf("%s: anchor `at %s %d of %s` matches no instruction", relPath(g.Clause.where()), g.Anchor, g.Ordinal, g.Callee))
 	}
 	res.Obligations = ex.obls
 	res.Decls = ex.finalDecls()
